@@ -9,7 +9,7 @@
 //! V1 responses contain:
 //! - **Data part**: The actual PSV response content
 //! - **Signature part**: PKCS#7/CMS detached signature
-//! - **Checksum epilogue**: Optional MD5 checksum at the end
+//! - **Checksum epilogue**: Optional checksum at the end (SHA-256, 64 hex digits)
 //!
 //! ## Usage
 //!
@@ -299,10 +299,17 @@ fn extract_checksum_epilogue(raw_response: &[u8]) -> (&[u8], Option<String>) {
     }
 }
 
-/// Validate MD5 checksum
+/// Validate the epilogue checksum
+///
+/// The protocol's checksum is the SHA-256 of the message (64 hex digits); a 32-digit
+/// value is compared as MD5.
 fn validate_checksum(data: &[u8], expected_checksum: &str) -> Result<()> {
-    let calculated = md5::compute(data);
-    let calculated_hex = hex::encode(calculated.0);
+    let calculated_hex = if expected_checksum.len() == 64 {
+        use sha2::{Digest, Sha256};
+        hex::encode(Sha256::digest(data))
+    } else {
+        hex::encode(md5::compute(data).0)
+    };
 
     if calculated_hex.eq_ignore_ascii_case(expected_checksum) {
         debug!("Checksum validation successful: {}", calculated_hex);
